@@ -35,5 +35,16 @@ CHECKS["C08"] = dict(
          "a refusal is accepted only from a structural rule on an off-diagonal",
     note=_TB + "; the stochastic estimator is not executed here: its selection by the automatic default is itself reported and replayed",
     technique="symbolic execution of the Python source + z3 validity queries on term-DAG equalities; counterexamples replayed on float NumPy")
-for _p in ["C04","C05","C06","C07","C09","C10","C11","C12","C13","C14","C15","C16","C17","C18","C19"]:
+_KRY = ("; inputs are produced by an inverse parametrisation (A, v) := (Q T Q^H, s Q e1) that is onto the stated input class for the listed "
+        "orthonormal bases (concrete generic rational Cayley bases for n >= 3, all plane rotations/reflections for n = 2); equalities "
+        "are decided on exact rational-function normal forms, path conditions / stopping rules / coverage by z3")
+CHECKS["C14"] = dict(
+    text="the real lanczos / lanczos_fact / lanczos_eigs / Lanczos() executed on Krylov-parametrised Hermitian inputs with symbolic alpha_j, "
+         "beta_j > 0, scale and tolerance: on every path (one per stopping index; exploration completeness is a z3 query) the returned Q, T equal "
+         "the parameters truncated at the returned size, hence orthonormal basis, first column, Q^H A Q = T, residual only in the last column, "
+         "non-negative off-diagonal, at most min(max_iters, n) columns, stop at an exhausted Krylov space; batched start vectors; Ritz pairs",
+    note=_TB + _KRY + "; each path seed is also run on the real float code and any discrepancy is replayed (catches rounding-level defects)",
+    technique="concolic symbolic execution of the Python source on exact rational-function terms; z3 decides path feasibility, branch flips and "
+              "path-coverage completeness; float replay of every path seed")
+for _p in ["C04","C05","C06","C07","C09","C10","C11","C12","C13","C15","C16","C17","C18","C19"]:
     NA[_p] = "check under construction in this session (not yet registered); see DESIGN.md section 5 for the plan"
